@@ -48,7 +48,7 @@ def photo_case(rng, i):
                continuous=cont, diffuse=diffuse, nbuffers=27 * nsub[0] * nsub[1] * nsub[2] * 5 + 600, queue=30000, shared_queue=30000, ntasks=60000,
                cross="Verner" if (diffuse == "Physical" or rng.chance(0.3)) else "FixedValue", temperature=rng.chance(0.3),
                writer=rng.choice(["AsciiFile", "Gadget", "Gadget"]))
-    toggles = dict(trackers=rng.chance(0.3), task_plot=rng.chance(0.2), field_selection=rng.choice([None, None, "He-only", "sparse"]),
+    toggles = dict(trackers=rng.choice([False, False, False, False, True, True, "stacked"]), task_plot=rng.chance(0.2), field_selection=rng.choice([None, None, "He-only", "sparse"]),
                    dark_discrete_source=bool(cont and nsrc and rng.chance(0.35)))
     if toggles["dark_discrete_source"]:
         # a discrete source distribution whose total luminosity is exactly zero next to a continuous source: the code
@@ -123,8 +123,14 @@ def write_case(case, rd):
             fn = os.path.join(rd, "trackers.yml")
             L = cfg["box"][1][0]
             with open(fn, "w") as f:
-                f.write("number of trackers: 2\ntracker[0]:\n  type: Spectrum\n  position: [%r m, 0. m, 0. m]\ntracker[1]:\n  type: Spectrum\n  position: [0. m, %r m, %r m]\n  number of bins: 50\n" % (
-                    0.2 * L, -0.3 * L, 0.1 * L))
+                if tg.get("trackers") == "stacked":
+                    # several trackers observing the same cell (e.g. one per frequency range or direction): 2 + 3 + 1
+                    pos = [(0.2 * L, 0., 0.)] * 2 + [(0., -0.3 * L, 0.1 * L)] * 3 + [(-0.25 * L, 0.25 * L, 0.)]
+                else:
+                    pos = [(0.2 * L, 0., 0.), (0., -0.3 * L, 0.1 * L)]
+                f.write("number of trackers: %d\n" % len(pos))
+                for k, q in enumerate(pos):
+                    f.write("tracker[%d]:\n  type: Spectrum\n  position: [%r m, %r m, %r m]\n  number of bins: %d\n" % (k, q[0], q[1], q[2], 50 + 10 * k))
             extra += ["TrackerManager:", "  filename: " + fn, "  minimum number of photon packets: 10"]
         pf = params.photo_params(cfg, rd)
         txt = open(pf).read()
@@ -283,6 +289,23 @@ def main():
                 case["toggles"]["live"] = "all"
                 case["cfg"]["ncell"] = [2 * case["cfg"]["nsub"][0], 4 * case["cfg"]["nsub"][1], 6 * case["cfg"]["nsub"][2]]
                 case["toggles"]["mask"] = False
+            if i == 2:      # several trackers in one cell
+                case["toggles"]["trackers"] = "stacked"
+            if i == 4:      # packets that are re-emitted many times and then leave the box (scattering statistics bins)
+                case["cfg"]["diffuse"] = "FixedValue"
+                case["cfg"]["reemit_p"] = 0.95
+                case["cfg"]["cross"] = "FixedValue"
+                case["cfg"]["periodic"] = [False, False, False]
+                case["cfg"]["continuous"] = None
+                if not case["cfg"]["sources"]:
+                    case["cfg"]["sources"] = [(0., 0., 0.)]
+                L4 = case["cfg"]["box"][1][0]
+                case["cfg"]["density"] = 3. / (6.3e-22 * L4)
+                case["cfg"]["luminosity"] = 1e-30
+                case["cfg"]["nphoton"] = 2000
+                case["toggles"]["dark_discrete_source"] = False
+                case["cfg"].pop("discrete_luminosity", None)
+                case["toggles"]["many_reemissions"] = True
             if i == 5:      # radiation + time dependent sources (copies deleted between steps) + recycled task slots, 4 threads
                 case = pick_rhd(r, i, lambda c: c["cfg"]["radiation"] and not c["toggles"]["mask"])
                 if not case["toggles"].get("varsources"):
